@@ -945,6 +945,8 @@ Definition run_net (ws : list bytes) : bytes :=
                           s2b "ct=" ++ tok_opt (lookup (s2b "content-type") (lr_headers lr));
                           s2b "auth=" ++ tok_opt (lookup (s2b "authorization") (lr_headers lr));
                           s2b "body=" ++ tok_bytes (lr_body lr)] in
+          (* several Content-Type headers (line feeds between the values): the first is the reply's *)
+          let ct := option_map first_line ct in
           let behaviour :=
             if is_kw "none" fault then SReply {| w_status := status; w_ct := ct; w_body := body |}
             else SFault in
@@ -965,6 +967,7 @@ Definition run_netflow (ws : list bytes) : bytes :=
   | [ad; status; ct; body] =>
       match parse_adapter ad, N_of_dec status, untok_opt ct, untok_bytes body with
       | Some a, Some status, Some ct, Some body =>
+          let ct := option_map first_line ct in
           match adapter_call a (SReply {| w_status := status; w_ct := ct; w_body := body |}) with
           | Some r =>
               render_outcome_gen (fun v => s2b "ok " ++ render_token render_unit v)
